@@ -495,6 +495,184 @@ def run_history(history):
     return out
 
 
+# ------------------------------------------------------------------------------------------
+# [str7-C12] GROWN Hamiltonians and constructor input forms.
+# The property quantifies over Hamiltonian OBJECTS, however the caller assembled them: a case with a "grow" list reaches its
+# final term list case["terms"] (consecutive chunks, in order) by a sequence of public operations of the Hamiltonian class
+#   {"op": "ctor", "form": none | default | empty_list | list | list_tp | list_mixed | bare_tp | triple, "n": k}
+#   {"op": add_term | add_multiple_terms | add_hamiltonian | plus_ham | iadd_ham | plus_tp | iadd_tp, "form": ..., "n": k}
+#   {"op": "rejected"}  (ham + 3 / ham + "x": raises TypeError, the caller catches it and keeps using the object)
+# each optionally followed by "build": a TTNO construction (any method) from the Hamiltonian AS IT IS THEN on the SAME tree
+# object the judged construction uses.  Every SGE construction on the way is judged by the oracle against the dense operator
+# of the terms added so far (computed from the case, never from the library's Hamiltonian); certificates and the call-path tie
+# apply to the final construction (the case format is unchanged).  Terms may have EMPTY support ([num, den, "1", []]: the
+# identity / a constant offset; a TensorProduct without entries is falsy in Python).  Numeric prefactors only (symbol "1").
+# ------------------------------------------------------------------------------------------
+def _live_tables(case):
+    from props.c01 import default_values
+    conv, cm = default_values(case)
+    lm = case.get("labelmap")
+    if lm:
+        conv = {lm.get(k, k): v for k, v in conv.items()}
+    return conv, cm
+
+
+def _live_terms(case, terms):
+    from props.c01 import make_term
+    lm = case.get("labelmap") or {}
+    return [make_term([t[0], t[1], t[2], [[k, lm.get(v, v)] for k, v in t[3]]]) for t in terms]
+
+
+def _is_unit(t):
+    return t[2] == "1" and Fraction(t[0], t[1]) == 1
+
+
+def _ham_from_form(case, form, chunk):
+    """a Hamiltonian from the terms `chunk` given to the constructor in the input form `form` (own table objects)"""
+    from util import Hamiltonian
+    conv, cm = _live_tables(case)
+    triples = _live_terms(case, chunk)
+    tps = [t[2] for t in triples]
+    if form == "none":
+        return Hamiltonian(None, conv, cm)
+    if form == "default":
+        return Hamiltonian(conversion_dictionary=conv, coeffs_mapping=cm)
+    if form == "empty_list":
+        return Hamiltonian([], conv, cm)
+    if form == "list":
+        return Hamiltonian(list(triples), conv, cm)
+    if form == "list_tp":
+        return Hamiltonian(list(tps), conv, cm)
+    if form == "list_mixed":
+        return Hamiltonian([tp if _is_unit(t) and k % 2 == 0 else tr for k, (t, tr, tp) in enumerate(zip(chunk, triples, tps))], conv, cm)
+    if form == "bare_tp":
+        return Hamiltonian(tps[0], conv, cm)
+    if form == "triple":
+        return Hamiltonian(triples[0], conv, cm)
+    raise ValueError(form)
+
+
+def ctor_forms(chunk):
+    """the documented constructor input forms that can express `chunk`"""
+    if not chunk:
+        return ["none", "default", "empty_list"]
+    unit = [_is_unit(t) for t in chunk]
+    forms = ["list"]
+    if all(unit):
+        forms.append("list_tp")
+    if len(chunk) > 1 and unit[0]:
+        forms.append("list_mixed")
+    if len(chunk) == 1:
+        forms.append("triple")
+        if unit[0]:
+            forms += ["bare_tp", "bare_tp"]
+    return forms
+
+
+def grow_ops(chunk):
+    """(op, form) pairs that can add `chunk` to an existing Hamiltonian"""
+    if not chunk:
+        return [("rejected", "int"), ("rejected", "str"), ("add_hamiltonian", "none"), ("add_multiple_terms", "triples")]
+    unit = all(_is_unit(t) for t in chunk)
+    out = [(op, f) for op in ("add_hamiltonian", "plus_ham", "iadd_ham") for f in ctor_forms(chunk)]
+    out += [("add_multiple_terms", "triples")] * 2 + ([("add_multiple_terms", "tps")] if unit else [])
+    if len(chunk) == 1:
+        out += [("add_term", "triple")] * 2
+        if unit:
+            out += [("add_term", "tp"), ("plus_tp", "tp"), ("iadd_tp", "tp")]
+    return out
+
+
+def dense_terms(case, terms, pre):
+    """dense operator of `terms` (case format, harness labels), sites in the order `pre`: independent of the library"""
+    from props.c01 import default_values
+    conv, cm = default_values(case)
+    phys = case["phys"]
+    D = int(np.prod(phys))
+    M = np.zeros((D, D), dtype=complex)
+    for t in terms:
+        ops = {int(k): v for k, v in t[3]}
+        m = np.ones((1, 1))
+        for i in pre:
+            m = np.kron(m, conv[ops[i]] if i in ops else np.eye(phys[i]))
+        M = M + float(term_frac(t)) * cm[t[2]] * m
+    return M
+
+
+def measure_ttno(case, ttno, ref):
+    """bond dimensions, exactness and numerical Schmidt ranks of the reference `ref` (sites in preorder)"""
+    from props.c01 import dense_ttno
+    ch = case["children"]
+    pre = preorder(ch)
+    ids = [nid(i) for i in pre]
+    par = parents_of(ch)
+    bd = ttno.bond_dims()
+    ob = {"bond": {}, "schmidt": {}}
+    for c in range(1, len(ch)):
+        key = (nid(par[c]), nid(c))
+        ob["bond"][str(c)] = int(bd[key]) if key in bd else None
+    dev = float(np.max(np.abs(dense_ttno(ttno, ids) - ref)))
+    top = float(np.max(np.abs(ref)))
+    ob["exact_dev"] = dev / max(1.0, top)
+    ob["exact_rel"] = dev / top if top > 0 else dev
+    dl = [case["phys"][i] for i in pre]
+    for c in range(1, len(ch)):
+        A = [pre.index(v) for v in subtree_nodes(ch, c)]
+        ob["schmidt"][str(c)] = list(schmidt_rank(ref, dl, sorted(A)))
+    return ob
+
+
+def grow_ham(case, ttns, ob):
+    """performs case['grow'] and returns the grown Hamiltonian; intermediate constructions on `ttns` are logged in ob['stages']"""
+    pos, ham = 0, None
+    stages, log = [], []
+    pre = preorder(case["children"])
+    for s in case["grow"]:
+        chunk = case["terms"][pos:pos + s["n"]]
+        pos += s["n"]
+        op, form = s["op"], s.get("form")
+        triples = _live_terms(case, chunk)
+        if op == "ctor":
+            ham = _ham_from_form(case, form, chunk)
+        elif op == "add_term":
+            ham.add_term(triples[0] if form == "triple" else triples[0][2])
+        elif op == "add_multiple_terms":
+            ham.add_multiple_terms(list(triples) if form == "triples" else [t[2] for t in triples])
+        elif op == "add_hamiltonian":
+            ham.add_hamiltonian(_ham_from_form(case, form, chunk))
+        elif op == "plus_ham":
+            ham = ham + _ham_from_form(case, form, chunk)
+        elif op == "iadd_ham":
+            ham += _ham_from_form(case, form, chunk)
+        elif op == "plus_tp":
+            ham = ham + triples[0][2]
+        elif op == "iadd_tp":
+            ham += triples[0][2]
+        elif op == "rejected":
+            try:
+                ham + (3 if form == "int" else "x")
+                log.append([op, "accepted"])
+            except TypeError:
+                log.append([op, "TypeError"])
+        else:
+            raise ValueError(op)
+        if s.get("build") and pos > 0:
+            st = {"nterms": pos, "method": s["build"], "after": op}
+            try:
+                ttno = TTNO.from_hamiltonian(ham, ttns, finder(s["build"]))
+                if s["build"] == "SGE":
+                    st.update(measure_ttno(case, ttno, dense_terms(case, case["terms"][:pos], pre)))
+            except Exception as e:  # noqa
+                site = traceback.extract_tb(e.__traceback__)[-1].name
+                st["exception"] = f"{type(e).__name__}: {e} [in {site}]"[:300]
+            stages.append(st)
+    assert pos == len(case["terms"]), "harness: grow steps do not cover the terms"
+    ob["stages"] = stages
+    ob["grow_log"] = log
+    ob["nterms_seen"] = len(ham.terms)
+    return ham
+
+
 class C12(Prop):
     id = "C12"
     title = "SGE bond dimensions are minimal"
@@ -661,6 +839,7 @@ class C12(Prop):
         cases += self._history_cases(ctx, rng, cap, budget_scale)
         cases += self._spell_cases(ctx, rng, cap, budget_scale)
         cases += self._scaled_cases(ctx, rng, cap, budget_scale)
+        cases += self._grown_cases(ctx, ctx.rng(stream + ":grown"), cap, budget_scale)
         return cases
 
     # [str5-C12] ------------------------------------------------------------------------------------------------------
@@ -833,6 +1012,60 @@ class C12(Prop):
             out.append(case)
         return out
 
+    # [str7-C12] ------------------------------------------------------------------------------------------------------
+    def _grown_cases(self, ctx, rng, cap, budget_scale):
+        """Hamiltonian objects assembled in steps with the public interface (constructor in every documented input form, add_term,
+        add_multiple_terms, add_hamiltonian, `+` / `+=` with a Hamiltonian or a TensorProduct, rejected additions), TTNOs built in
+        between on the same tree object; identity / constant-offset terms (empty support).  Numeric prefactors only."""
+        out = []
+        for k in range(ctx.scale(90, 900) * budget_scale):
+            g = 80000 + k
+            ch = random_children(rng, rng.choice([2, 3, 3, 4, 4, 5, 5, 6]))
+            case = self._random_case(rng, ch, cap, g if g % 10 != 3 else g + 1, coefmodes=("unit", "unit", "frac"), p_product=0.5)
+            if case is None or any(t[2] != "1" for t in case["terms"]):
+                continue
+            terms = case["terms"]
+            offset = rng.random() < 0.35
+            if offset:                # the identity / a constant offset: a term without any operator
+                f = Fraction(1) if rng.random() < 0.6 else Fraction(rng.choice([2, -1, 3, -2, 5, 1]), rng.choice([1, 2, 3]))
+                terms.insert(rng.choice([0, 0, len(terms), rng.randrange(len(terms) + 1)]), [f.numerator, f.denominator, "1", []])
+            if rng.random() < 0.08:
+                terms[:] = [t for t in terms if not t[3]] or terms[:1]        # the offset (or one term) alone
+            if case_features(case)["same_string"]:
+                continue
+            n = len(terms)
+            # consecutive chunks: the constructor's share (possibly none), then the additions
+            first = rng.choice([0, 1, 1, 1, 2, max(1, n // 2), max(1, n - 1), n])
+            first = min(first, n)
+            sizes, left = [first], n - first
+            while left > 0:
+                m = rng.choice([1, 1, 1, 2, 3, left])
+                m = min(m, left)
+                sizes.append(m)
+                left -= m
+            grow, pos = [], 0
+            for j, m in enumerate(sizes):
+                chunk = terms[pos:pos + m]
+                pos += m
+                if j == 0:
+                    step = {"op": "ctor", "form": rng.choice(ctor_forms(chunk)), "n": m}
+                    pb = 0.85
+                else:
+                    op, form = rng.choice(grow_ops(chunk))
+                    step = {"op": op, "form": form, "n": m}
+                    pb = 0.45
+                if rng.random() < pb:
+                    step["build"] = rng.choice(["SGE", "SGE", "SGE", "SGE", "BIPARTITE", "BASE", "TREE"])
+                grow.append(step)
+                if rng.random() < 0.15:          # an addition that adds nothing / is rejected, in between
+                    op, form = rng.choice(grow_ops([]))
+                    grow.append({"op": op, "form": form, "n": 0})
+            case.update(grow=grow, struct="grown:" + case["struct"] + ("+offset" if offset else ""))
+            if rng.random() < 0.25:
+                case.update(proc="fresh", hist="first")
+            out.append(case)
+        return out
+
     def _history_cases(self, ctx, rng, cap, budget_scale):
         """process histories (the property holds for every construction of a program, whatever the process did before):
         "proc": "fresh" cases run in a process forked from a pristine zygote (library imported, nothing constructed)
@@ -993,6 +1226,15 @@ class C12(Prop):
                             "pristine, first construction" if not x.get("history") else "pristine, after a history")] += 1
             for h in x.get("history", []):
                 c["history_method:" + h["method"]] += 1
+            for st in x.get("grow", []):
+                c["grow_op:" + st["op"] + (":" + st["form"] if st["op"] == "ctor" else "")] += 1
+                if st["op"] != "ctor" and st.get("form") in ("none", "default", "empty_list", "list", "list_tp", "list_mixed", "bare_tp", "triple"):
+                    c["added_hamiltonian_form:" + st["form"]] += 1
+                if st.get("build"):
+                    c["grow_intermediate_build:" + st["build"]] += 1
+            if x.get("grow"):
+                c["grown_hamiltonians"] += 1
+                c["with_empty_support_term"] += any(not t[3] for t in x["terms"])
             if x.get("history"):
                 c[f"history_len:{len(x['history'])}"] += 1
             for e in range(1, len(x["children"])):
@@ -1013,7 +1255,18 @@ class C12(Prop):
         if case.get("history"):
             ob["history"] = run_history(case["history"])
         ttns = build_ref(case)
-        ham = build_ham_c12(case)
+        if case.get("grow"):
+            # [str7-C12] the Hamiltonian is assembled step by step (TTNOs built in between on the same tree object `ttns`)
+            try:
+                ham = grow_ham(case, ttns, ob)
+            except Exception as e:  # noqa
+                site = traceback.extract_tb(e.__traceback__)[-1].name
+                ob["exception"] = f"while the Hamiltonian was assembled: {type(e).__name__}: {e} [in {site}]"
+                ob["tb"] = traceback.format_exc()[-1200:]
+                ob["sge_calls"] = []
+                return ob
+        else:
+            ham = build_ham_c12(case)
         ch = case["children"]
         pre = preorder(ch)
         ids = [nid(i) for i in pre]
@@ -1058,7 +1311,8 @@ class C12(Prop):
                 _pos, cnt = export_positions(ex, case)
                 ob["nvert"] = {str(c): cnt[c] for c in range(1, len(ch))}
         # exactness (C01's oracle) — a minimal but wrong operator must not pass
-        ref = util.dense_ham(ham, ids, dims)
+        # (grown Hamiltonians: the reference is computed from the case's terms, not from the object the library worked on)
+        ref = dense_terms(case, case["terms"], pre) if case.get("grow") else util.dense_ham(ham, ids, dims)
         from props.c01 import dense_ttno
         dev = float(np.max(np.abs(dense_ttno(ttno, ids) - ref)))
         ob["exact_dev"] = dev / max(1.0, float(np.max(np.abs(ref))))
@@ -1239,10 +1493,25 @@ class C12(Prop):
     def oracle(self, case, ob):
         if "harness_error" in ob:
             return None
+        for st in ob.get("stages", []):          # [str7-C12] SGE constructions while the Hamiltonian was being assembled
+            if st["method"] != "SGE":
+                continue
+            where = f"construction after {st['after']} with {st['nterms']} of the terms: "
+            if "exception" in st:
+                return where + f"raised {st['exception']}"
+            if st["exact_dev"] > 1e-9 or st["exact_rel"] > 1e-9:
+                return where + f"the SGE TTNO is not exact (relative deviation {st['exact_rel']})"
+            for e in range(1, len(case["children"])):
+                r, kept, dropped = st["schmidt"][str(e)]
+                if st["bond"][str(e)] != max(r, 1):
+                    return where + (f"edge (n{parents_of(case['children'])[e]}, n{e}): bond dimension {st['bond'][str(e)]}, operator Schmidt rank {r} "
+                                    f"(singular value ratios kept {kept:.2e} dropped {dropped:.2e})")
         if "exception" in ob:
             return f"raised {ob['exception']}"
         if ob["exact_dev"] > 1e-9:
-            return f"the SGE TTNO is not exact (relative deviation {ob['exact_dev']})"
+            lost = (f"; the assembled Hamiltonian object holds {ob.get('nterms_seen')} terms, {len(case['terms'])} were given"
+                    if case.get("grow") and ob.get("nterms_seen") != len(case["terms"]) else "")
+            return f"the SGE TTNO is not exact (relative deviation {ob['exact_dev']})" + lost
         if ob.get("exact_rel", 0.0) > 1e-9:
             return f"the SGE TTNO is not exact (relative deviation {ob['exact_rel']}, relative to the largest entry of H)"
         for e in range(1, len(case["children"])):
@@ -1310,6 +1579,25 @@ class C12(Prop):
                 cur, hist = cand, cand["history"]
             else:
                 i += 1
+        if cur.get("grow"):
+            # [str7-C12] grown Hamiltonians: drop whole steps with their terms, then intermediate constructions
+            j = 1
+            while j < len(cur["grow"]):
+                st = cur["grow"][j]
+                a = sum(x["n"] for x in cur["grow"][:j])
+                cand = dict(cur, grow=cur["grow"][:j] + cur["grow"][j + 1:], terms=cur["terms"][:a] + cur["terms"][a + st["n"]:])
+                if cand["terms"] and fails(cand):
+                    cur = cand
+                else:
+                    j += 1
+            for j in range(len(cur["grow"])):
+                if cur["grow"][j].get("build"):
+                    g2 = copy.deepcopy(cur["grow"])
+                    del g2[j]["build"]
+                    cand = dict(cur, grow=g2)
+                    if fails(cand):
+                        cur = cand
+            return cur
         block = len(cur["terms"]) // 2
         while block >= 1:
             i = 0
